@@ -77,6 +77,11 @@ pub fn mutate_bytes(r: &mut Rng, b: &mut Vec<u8>) -> &'static str {
 pub fn mutate_leb(r: &mut Rng, m: &Module) -> (Vec<u8>, &'static str) {
     let (_, n) = m.encode_padded(usize::MAX, 0);
     let which = r.below(n.max(1) as u64) as usize;
+    if r.chance(1, 4) {
+        // out-of-range encoding: bits beyond the field width set in the last byte (malformed)
+        let (b, _) = m.encode_padded(which, OVERFLOW + r.below(7) as usize);
+        return (b, "leb.overflow");
+    }
     let pad = match r.below(6) {
         0 | 1 => 1,
         2 => 2,
